@@ -9,4 +9,4 @@ RULE = ("per function item and variant: request from FillRandom or a hostile ref
 
 def run(ctx):
     codec.simple_check(ctx, "c07", RULE, [("functions", "functions", 30), ("results", "results", 1500), ("typed comparisons", "typed_comparisons", 1000),
-                                          ("full chains", "all_transcoders_agree", 1000)], 40, 400, count_keys=("results",))
+                                          ("full chains", "all_transcoders_agree", 1000)], 40, 400, count_keys=("results",), random_quick=2, random_thorough=20)
